@@ -7,6 +7,7 @@ CONSTANTS
   LogLocalRatio = 1
   MaxOff = 0
   MaxSpecs = 0
+  ImmixBlockLog = 15
   LocalBaseRule = "after_all_globals"
   OffsetRule = "size_only"
 INVARIANTS
